@@ -551,6 +551,23 @@ func (g *caseGen) service(svc *svcInfo, nper int) []*opCase {
 		inj(joinMsg(name, typ, seq, body), "err -", map[string]string{"unknown": name, "seq": strconv.Itoa(int(seq))}, false)
 		g.out.Count("case.inj.unknown_method")
 	}
+	// a streaming function (removed by the backend because thrift_streaming is off) is unknown to the processor,
+	// also when it was declared in an ancestor
+	for cur := svc; cur != nil; {
+		for _, m := range cur.Removed {
+			rec := &values.Value{K: values.KRecord, E: []*values.Value{values.Int(int64(g.r.Intn(100)))}}
+			if body, err := refcodec.Encode(s, m.ArgsSidx, rec); err == nil {
+				seq := int32(g.r.U64())
+				inj(joinMsg(m.Name, 1, seq, body), "err -", map[string]string{"unknown": m.Name, "seq": strconv.Itoa(int(seq)), "streaming": m.Mode + ":" + where(cur.File)}, false)
+				g.out.Count("case.inj.streaming_function." + m.Mode)
+			}
+		}
+		if cur.Base >= 0 {
+			cur = g.table[cur.Base]
+		} else {
+			cur = nil
+		}
+	}
 	// a method of a DERIVED service sent to this (base) service's processor is unknown here
 	for _, other := range g.table {
 		if other.Base == svc.Idx && len(other.Own) > 0 {
@@ -940,11 +957,17 @@ func verdict(oc *opCase, ans string) string {
 		return ""
 	case "INJ":
 		toks := strings.Fields(ans)
+		if name, ok := oc.expect["unknown"]; ok && (ans == "panic" || ans == "crash") {
+			return fmt.Sprintf("CALL %q (not a method of the service) made the processor panic instead of answering UNKNOWN_METHOD", name)
+		}
 		if len(toks) < 5 {
 			return "unparsable driver answer"
 		}
 		n := len(toks)
 		if name, ok := oc.expect["unknown"]; ok {
+			if ans == "panic" || ans == "crash" {
+				return fmt.Sprintf("CALL %q (not a method of the service) made the processor panic instead of answering UNKNOWN_METHOD", name)
+			}
 			if toks[2] != "H-" {
 				return "handler invoked for an unknown method"
 			}
@@ -1089,11 +1112,41 @@ func shrink(b *batch.Built, r *vl.Rng, oc *opCase, ans, msg string) (*opCase, st
 
 // ---------------------------------------------------------------- run
 
-func reportUnits(b *batch.Built) int {
+func where(file int) string {
+	if file == 0 {
+		return "main-file"
+	}
+	return "included-file"
+}
+
+// unitUsable: batch.UnitInfo.OK(), except that the synthesized structs of streaming functions are expected to be
+// absent from the generated code (the functions are removed by the backend).
+func unitUsable(u *batch.UnitInfo, table []*svcInfo) bool {
+	if u.Exit != 0 || len(u.ParseErrors) > 0 || len(u.BuildErrors) > 0 || !u.Linked {
+		return false
+	}
+	gone := map[int]bool{}
+	for _, si := range table {
+		for _, m := range si.Removed {
+			gone[m.ArgsSidx] = true
+			if m.ResSidx >= 0 {
+				gone[m.ResSidx] = true
+			}
+		}
+	}
+	for _, e := range u.Registry {
+		if !e.Found && !gone[e.Sidx] {
+			return false
+		}
+	}
+	return true
+}
+
+func reportUnits(b *batch.Built, tables map[int][]*svcInfo) int {
 	bad := 0
 	for i := range b.Units {
 		u := &b.Units[i]
-		if u.OK() {
+		if unitUsable(u, tables[i]) {
 			continue
 		}
 		bad++
@@ -1181,6 +1234,13 @@ func run(repo, dir string, seed uint64, nprog int, tier string, keep bool, only 
 
 	var units []batch.Unit
 	var streams []map[*idlgen.Function]string
+	{
+		// regression item, first unit: the witness of the included-file streaming defect (fixed: 6b9b20c)
+		p, streaming := regressionProgram()
+		streams = append(streams, streaming)
+		units = append(units, batch.Unit{Prog: p, Recurse: true, Tag: "regression:streaming-included-file"})
+		out.Count("unit.regression")
+	}
 	for i := 0; i < nprog; i++ {
 		stress := i%4 == 3
 		p, streaming := genProgram(r, stress, out.Count)
@@ -1205,10 +1265,16 @@ func run(repo, dir string, seed uint64, nprog int, tier string, keep bool, only 
 		fmt.Println("ERROR:", err)
 		return 2
 	}
-	badUnits := reportUnits(b)
+	tables := map[int][]*svcInfo{}
+	for i := range b.Units {
+		if b.Units[i].Exit == 0 {
+			tables[i] = serviceTable(units[i].Prog, b.Units[i].Schema, streams[i])
+		}
+	}
+	badUnits := reportUnits(b, tables)
 	for i := range b.Units {
 		u := &b.Units[i]
-		if !u.OK() {
+		if !unitUsable(u, tables[i]) {
 			// rejected / uncompilable output is C01's business: counted and described, not reported here
 			out.Count("unit.unusable")
 			out.Sample(map[string]interface{}{"unusable_unit": u.Key, "tag": u.Tag, "options": u.Options, "build": u.BuildErrors, "exit": u.Exit})
@@ -1220,16 +1286,14 @@ func run(repo, dir string, seed uint64, nprog int, tier string, keep bool, only 
 	}
 
 	// ---- scan + glue
-	tables := map[int][]*svcInfo{}
 	usable := map[int][]*unitSvc{}
 	glue := map[int]string{}
 	mod := filepath.Join(work, "mod")
 	for i := range b.Units {
 		u := &b.Units[i]
-		if !u.OK() {
+		if !unitUsable(u, tables[i]) {
 			continue
 		}
-		tables[i] = serviceTable(units[i].Prog, u.Schema, streams[i])
 		scanned, err := scanUnit(mod, u.Files)
 		if err != nil {
 			fmt.Println("scan", u.Key, err)
@@ -1238,11 +1302,19 @@ func run(repo, dir string, seed uint64, nprog int, tier string, keep bool, only 
 		}
 		svcs := matchServices(u, tables[i], scanned)
 		for _, us := range svcs {
+			for _, l := range us.leaked {
+				msg := fmt.Sprintf("streaming function %s.%s (streaming.mode = %q) is still registered by %s although thrift_streaming is off", us.si.Name, l, us.si.removed(l).Mode, us.gs.procCtor)
+				fmt.Println("SERVICE", u.Key, msg)
+				out.Count("service.streaming_not_removed")
+				out.Fail(vl.OracleFail{Key: "streaming-not-removed:" + us.si.removed(l).Mode + ":" + where(us.si.File), What: msg,
+					Input:    map[string]interface{}{"unit": u.Key, "options": u.Options, "idl": units[i].Prog.Render(), "cmd": strings.Join(u.Cmd, " "), "service": us.si.Name, "function": l, "seed": seed},
+					Expected: "interface, client and processor hold the non-streaming functions only", Observed: fmt.Sprintf("%s registers %v", us.gs.procCtor, us.gs.procLits)})
+			}
 			if us.note != "" {
 				fmt.Printf("SERVICE %s:%d (%s) not usable: %s\n", u.Key, us.si.Idx, us.si.Name, us.note)
 				out.Count("service.unmatched")
 				out.Fail(vl.OracleFail{Key: "service-shape:" + us.note, What: "generated service code does not have the expected shape: " + us.note,
-					Input: map[string]interface{}{"unit": u.Key, "idl_dir": u.IDLDir, "service": us.si.Name}, Expected: "interface + client (3 constructors) + processor registering the service's functions", Observed: us.note})
+					Input: map[string]interface{}{"unit": u.Key, "idl": units[i].Prog.Render(), "cmd": strings.Join(u.Cmd, " "), "service": us.si.Name, "seed": seed}, Expected: "interface + client (3 constructors) + processor registering the service's functions", Observed: us.note})
 			}
 		}
 		src, err := unitSource(u, svcs)
@@ -1338,12 +1410,19 @@ func run(repo, dir string, seed uint64, nprog int, tier string, keep bool, only 
 			out.Case(line, ans, false)
 			continue
 		}
-		out.Case(line, canonical(c, ans), true)
+		msg := verdict(c, ans)
 		out.Count("op." + c.kind)
 		if c.kind == "CALL" {
 			out.Count(fmt.Sprintf("op.CALL.calls.%d", len(c.calls)))
 		}
-		if msg := verdict(c, ans); msg != "" {
+		if msg == "" {
+			out.Case(line, canonical(c, ans), true)
+		} else {
+			// a line on which the property itself fails is reported as a failing input; the model's prediction for it
+			// (the property holding) adds nothing, so it is not part of the correspondence files
+			out.Count("op.failing_not_in_correspondence")
+		}
+		if msg != "" {
 			fails++
 			if fails <= 6 && only == "" {
 				c, ans, msg = shrink(b, r, c, ans, msg)
@@ -1352,7 +1431,11 @@ func run(repo, dir string, seed uint64, nprog int, tier string, keep bool, only 
 			if fails <= 10 {
 				fmt.Printf("ORACLE FAIL [%s %s] %s\n  op: %.400s\n  got: %.400s\n", c.unit.Key, strings.Join(c.unit.Options, ","), msg, line, ans)
 			}
-			out.Fail(vl.OracleFail{Key: line, What: c.kind + ": " + msg,
+			key := line
+			if sm, ok := c.expect["streaming"]; ok {
+				key = "streaming-call-not-unknown:" + sm // stable: mode and where the service is declared
+			}
+			out.Fail(vl.OracleFail{Key: key, What: c.kind + ": " + msg,
 				Input: map[string]interface{}{"unit": c.unit.Key, "tag": c.unit.Tag, "options": c.unit.Options, "service": c.svc.Name, "op": line, "seed": seed,
 					"idl": units[c.unit.Index].Prog.Render(), "cmd": strings.Join(c.unit.Cmd, " ")},
 				Expected: "see what", Observed: ans})
@@ -1460,6 +1543,30 @@ func extract(repo string) error {
 	list("messageBegins", "String × String", mb)
 	list("clientCalls", "String × String × String", calls)
 	list("synthesized", "String × String", syn)
+	// streaming: the guard at the call site and the filter inside removeStreamingFunctions
+	backend, err := read("generator/golang/backend.go")
+	if err != nil {
+		return err
+	}
+	// (since fix 6b9b20c the filter runs over every AST reachable from the request's: included files too)
+	guard := regexp.MustCompile(`if ([^{\n]+) \{\s*for (\w+) := range ([^{\n]+) \{\s*g\.removeStreamingFunctions\((\w+)\)`).FindStringSubmatch(backend)
+	filter := regexp.MustCompile(`if ([^{\n]+) \{\s*g\.log\.Warn\(fmt\.Sprintf\("skip streaming function`).FindStringSubmatch(backend)
+	if guard == nil || filter == nil || guard[2] != guard[4] {
+		return fmt.Errorf("removeStreamingFunctions: guard + loop over the reachable ASTs, or the filter, not found in backend.go")
+	}
+	sfile, err := read("generator/golang/streaming/streaming.go")
+	if err != nil {
+		return err
+	}
+	var st [][]string
+	st = append(st, []string{"guard", guard[1]}, []string{"loop", guard[3]}, []string{"filter", filter[1]})
+	if m := regexp.MustCompile(`StreamingModeKey\s*=\s*("[^"]*")`).FindStringSubmatch(sfile); m != nil {
+		st = append(st, []string{"key", m[1]})
+	}
+	for _, m := range regexp.MustCompile(`(Streaming\w+)\s*=\s*("[^"]*")\s*//`).FindAllStringSubmatch(sfile, -1) {
+		st = append(st, []string{m[1], m[2]})
+	}
+	list("streaming", "String × String", st)
 	sb.WriteString("end Generated.C08\n")
 	fmt.Print(sb.String())
 	return nil
